@@ -1,33 +1,43 @@
 import MuduoVerif.Generated.LogFile
+import MuduoVerif.Generated.AsyncLog
 /-!
 # Model of `muduo::AsyncLogging` (C16, concurrent half)
 
-A thread-indexed transition system.  One `Step` is the code one thread executes between two
-consecutive yield points of the deterministic scheduler (before a mutex acquisition, at a condition
-wait, at the named points `threadFunc:swapped` / `threadFunc:beforeRetest`, at thread exit / join);
-every critical section of `mutex_` is therefore inside one step and the mutex itself needs no state.
+A transition system with arbitrary interleaving at the granularity of critical sections.  One `Step`
+is the code one thread executes between two consecutive yield points of the deterministic scheduler
+(before a mutex acquisition, at a condition wait, at the named points `threadFunc:swapped` /
+`threadFunc:beforeRetest`, at thread exit / join).
 
-* front-end (any thread, any number of them): `front r` = `AsyncLogging::append` — the strict space
-  test, the buffer switch, the notify;
-* back-end thread: `test` (evaluate `while (running_)`), `enter` (lock; wait if nothing is queued,
-  else collect + swap), `wake k` (return from the timed wait — notified / timed out / spurious — then
-  collect + swap), `write` (overload valve · write · recycle · flush, i.e. `swapped` →
-  `beforeRetest`), `final` (the collect-and-write after the loop, then the thread ends);
-* `start`, `stopCall` (`running_ = false; cond_.notify()`), `stopJoin` (`thread_.join()` returns).
+*Why this granularity is enough.*  `currentBuffer_`, `nextBuffer_`, `buffers_` are touched only while
+`mutex_` is held (GUARDED_BY in the header; C08 checks the accesses), `running_` is a `std::atomic`
+read exactly once per cycle (its own step `test`), and everything else the back-end touches
+(`newBuffer1/2`, `buffersToWrite`, `output`) is local to its thread.  So every execution is equivalent
+to one in which each critical section and each lock-free stretch of the back-end runs without
+interruption — the steps below.  `notify()` outside the lock only sets the `woken` flag of a waiting
+back-end; since time-outs and spurious wake-ups (`wake 1`, `wake 2`) are always possible, every
+behaviour with a differently timed notification is among the histories considered as well.
+
+*What is generated and what is hand-written.*  The statements of every critical section and phase are
+NOT written here: `frontThen`, `frontElse`, `loopCollect`, `loopWrite`, `finalCollect`, `finalWrite`,
+`startOps`, `stopOps` are lists of statement shapes (`Op`) that `vlib/gen/asynclog.py` reads from the
+clang AST of AsyncLogging.{h,cc} on every run, together with the guards `frontFits`, `backWaits`,
+`overloaded`, `shrinkIf` and the constants.  Hand-written: the meaning of one statement shape
+(`exec`), the control skeleton of `threadFunc` (`step`), and `FixedBuffer::append` (`bufAppend`, with
+the generated guard `fixedAppendFits`).
 
 A record is an opaque whole (`tid`, `seq`, `len`); buffers have a byte capacity `cap`
-(`asyncBufferSize` for the real class).  Guards and constants come from `Generated/LogFile.lean`.
-Ghost fields (`appended`, `ledger`, `atStop`, …) record the history the theorems talk about; no
-guard reads them.  Core Lean only.
+(`asyncBufferSize` for the real class).  Ghost fields (`appended`, `ledger`, `pending`, `atStop`, …)
+record the history the theorems talk about; no guard reads them.  Core Lean only.
 -/
 namespace MuduoVerif.AsyncLog
-open MuduoVerif.Gen.LogFile
+open MuduoVerif.Gen.LogFile (fixedAppendFits)
+open MuduoVerif.Gen.AsyncLog
 
 structure Rec where
   tid : Nat
   seq : Nat
   len : Nat
-  deriving DecidableEq, Repr
+  deriving DecidableEq, Repr, Inhabited
 
 /-- a `FixedBuffer`: the records copied into it, oldest first -/
 abbrev Buf := List Rec
@@ -58,7 +68,7 @@ inductive Item where
   | note (n : Nat)      -- the drop announcement, reporting `n` buffers
   deriving DecidableEq, Repr
 
-/-- ghost ledger: the fate of every record the back-end has taken, in linearisation order -/
+/-- ghost ledger: the fate of every record the back-end has taken, in the order of the appends -/
 inductive Led where
   | kept (r : Rec)
   | dropped (bufs : List Buf)
@@ -66,8 +76,10 @@ inductive Led where
 
 structure St where
   cap : Nat
-  /-- `currentBuffer_` -/
+  /-- `currentBuffer_` (its contents; meaningless while `curOk = false`) -/
   cur : Buf
+  /-- `currentBuffer_` is non-null -/
+  curOk : Bool
   /-- `nextBuffer_` is non-null (it is always empty when present) -/
   hasNext : Bool
   /-- `buffers_` -/
@@ -85,21 +97,101 @@ structure St where
   disk : List Item
   /-- length of `disk` at the last `output.flush()` -/
   flushed : Nat
+  /-- the announcements written to stderr -/
+  errNotes : List Nat
+  /-- a null buffer pointer was used (undefined behaviour / failed `assert`) -/
+  fault : Bool
   -- ghost
   /-- every record passed to `append`, in the order of the critical sections -/
   appended : List Rec
   ledger : List Led
+  /-- buffers the valve erased in the running cycle; they enter the ledger behind the kept ones -/
+  pending : List Led
   started : Bool
   stopCalled : Bool
   stopReturned : Bool
-  /-- `appended` when `stop()` cleared `running_` -/
+  /-- `appended` when `stop()` was called -/
   atStop : List Rec
   deriving Repr
 
 def init (cap : Nat) : St :=
-  { cap := cap, cur := [], hasNext := true, bufs := [], running := false, pc := .idle, woken := false,
-    toWrite := [], nb1 := true, nb2 := true, disk := [], flushed := 0, appended := [], ledger := [],
-    started := false, stopCalled := false, stopReturned := false, atStop := [] }
+  { cap := cap, cur := [], curOk := true, hasNext := true, bufs := [], running := false, pc := .idle,
+    woken := false, toWrite := [], nb1 := true, nb2 := true, disk := [], flushed := 0, errNotes := [],
+    fault := false, appended := [], ledger := [], pending := [], started := false, stopCalled := false,
+    stopReturned := false, atStop := [] }
+
+/-- `cond_.notify()`: releases the back-end if (and only if) it is waiting right now -/
+def notified (s : St) : Bool := s.woken || (s.pc == .waiting)
+
+def items (bs : List Buf) : List Item := bs.flatten.map Item.record
+def keeps (bs : List Buf) : List Led := bs.flatten.map Led.kept
+
+/-- the meaning of one statement shape; `r` is the record of the running `append` call -/
+def exec (r : Rec) (o : Op) (s : St) : St :=
+  match o with
+  | .appendCur =>
+    if s.curOk then { s with cur := bufAppend s.cap s.cur r } else { s with fault := true }
+  | .pushCur => { s with bufs := s.bufs ++ [s.cur], cur := [], curOk := false, fault := s.fault || !s.curOk }
+  | .pushCurW => { s with toWrite := s.toWrite ++ [s.cur], cur := [], curOk := false, fault := s.fault || !s.curOk }
+  | .curFromNextOrNew => { s with cur := [], curOk := true, hasNext := false }
+  | .curFromNext => { s with cur := [], curOk := s.hasNext, hasNext := false }
+  | .curNew => { s with cur := [], curOk := true }
+  | .curFromNew1 => { s with cur := [], curOk := s.nb1, nb1 := false }
+  | .curFromNew2 => { s with cur := [], curOk := s.nb2, nb2 := false }
+  | .refillNext => if s.hasNext then s else { s with hasNext := s.nb2, nb2 := false }
+  | .refillNext1 => if s.hasNext then s else { s with hasNext := s.nb1, nb1 := false }
+  | .swapQueue => { s with toWrite := s.bufs, bufs := s.toWrite }
+  | .notify => { s with woken := notified s }
+  | .valve =>
+    if overloaded s.toWrite.length then
+      { s with disk := if valveAnnouncesFile then s.disk ++ [Item.note (dropAnnounce s.toWrite.length)] else s.disk,
+               errNotes := if valveAnnouncesStderr then s.errNotes ++ [dropAnnounce s.toWrite.length] else s.errNotes,
+               pending := s.pending ++ [Led.dropped (s.toWrite.drop dropKeep)],
+               toWrite := s.toWrite.take dropKeep }
+    else s
+  | .writeAll => { s with disk := s.disk ++ items s.toWrite, ledger := s.ledger ++ keeps s.toWrite ++ s.pending,
+                          pending := [] }
+  | .shrink => if shrinkIf s.toWrite.length then { s with toWrite := s.toWrite.take shrinkTo } else s
+  | .recycle1 =>
+    if s.nb1 then s
+    else { s with nb1 := !s.toWrite.isEmpty, fault := s.fault || s.toWrite.isEmpty, toWrite := s.toWrite.dropLast }
+  | .recycle2 =>
+    if s.nb2 then s
+    else { s with nb2 := !s.toWrite.isEmpty, fault := s.fault || s.toWrite.isEmpty, toWrite := s.toWrite.dropLast }
+  | .clear => { s with toWrite := [] }
+  | .flush => { s with flushed := s.disk.length }
+  | .setRunning => { s with running := true }
+  | .clearRunning => { s with running := false }
+  | .spawn => if s.pc = .idle then { s with pc := .test } else { s with fault := true }
+  | .latchWait => s
+  | .join => s
+
+def runOps (r : Rec) (ops : List Op) (s : St) : St := ops.foldl (fun s o => exec r o s) s
+
+/-- the record argument of the statements that run outside `append` (none of them reads it) -/
+def noRec : Rec := ⟨0, 0, 0⟩
+
+/-- `AsyncLogging::append`: one critical section -/
+def front (s : St) (r : Rec) : St :=
+  if s.curOk then
+    let s' := if frontFits (avail s.cap s.cur) r.len then runOps r frontThen s else runOps r frontElse s
+    { s' with appended := s.appended ++ [r] }
+  else { s with fault := true, appended := s.appended ++ [r] }
+
+/-- the critical section of the loop after the wait -/
+def collect (s : St) : St :=
+  { runOps noRec loopCollect s with woken := false, pc := .swapped }
+
+/-- `swapped` → `beforeRetest`: overload valve, write, recycle, flush -/
+def writePhase (s : St) : St :=
+  { runOps noRec loopWrite s with pc := .test }
+
+/-- after the loop: what the generated lists say, then the thread ends -/
+def finalPhase (s : St) : St :=
+  { runOps noRec finalWrite (runOps noRec finalCollect s) with pc := .done }
+
+/-- `stop()` up to (not including) `thread_.join()` -/
+def stopPrefix : List Op := stopOps.takeWhile (· ≠ .join)
 
 inductive Step where
   | start
@@ -113,59 +205,14 @@ inductive Step where
   | stopJoin
   deriving Repr
 
-/-- `cond_.notify()`: releases the back-end if (and only if) it is waiting right now -/
-def notified (s : St) : Bool := s.woken || (s.pc == .waiting)
-
-/-- `AsyncLogging::append` -/
-def front (s : St) (r : Rec) : St :=
-  if frontFits (avail s.cap s.cur) r.len then
-    { s with cur := bufAppend s.cap s.cur r, appended := s.appended ++ [r] }
-  else
-    { s with bufs := s.bufs ++ [s.cur], cur := bufAppend s.cap [] r, hasNext := false,
-             woken := if frontNotifies then notified s else s.woken,
-             appended := s.appended ++ [r] }
-
-/-- the critical section of the loop after the wait: queue the current buffer, install `newBuffer1`,
-swap the queue out, refill `nextBuffer_` -/
-def collect (s : St) : St :=
-  { s with toWrite := s.bufs ++ [s.cur], bufs := s.toWrite, cur := [], nb1 := false,
-           hasNext := true, nb2 := s.nb2 && s.hasNext, woken := false, pc := .swapped }
-
-def items (bs : List Buf) : List Item := bs.flatten.map Item.record
-def keeps (bs : List Buf) : List Led := bs.flatten.map Led.kept
-
-/-- `swapped` → `beforeRetest`: overload valve, write, recycle, flush -/
-def writePhase (s : St) : St :=
-  if overloaded s.toWrite.length then
-    { s with disk := s.disk ++ [Item.note (dropAnnounce s.toWrite.length)] ++ items (s.toWrite.take dropKeep),
-             ledger := s.ledger ++ keeps (s.toWrite.take dropKeep) ++ [Led.dropped (s.toWrite.drop dropKeep)],
-             flushed := if cycleFlushes then (s.disk ++ [Item.note (dropAnnounce s.toWrite.length)] ++ items (s.toWrite.take dropKeep)).length
-                        else s.flushed,
-             toWrite := [], nb1 := true, nb2 := true, pc := .test }
-  else
-    { s with disk := s.disk ++ items s.toWrite,
-             ledger := s.ledger ++ keeps s.toWrite,
-             flushed := if cycleFlushes then (s.disk ++ items s.toWrite).length else s.flushed,
-             toWrite := [], nb1 := true, nb2 := true, pc := .test }
-
-/-- after the loop: collect once more (no wait, no valve), write, flush -/
-def finalPhase (s : St) : St :=
-  { s with bufs := s.toWrite, cur := [], nb1 := false,
-           disk := s.disk ++ items (s.bufs ++ [s.cur]),
-           ledger := s.ledger ++ keeps (s.bufs ++ [s.cur]),
-           flushed := if finalFlush then (s.disk ++ items (s.bufs ++ [s.cur])).length else s.flushed,
-           pc := .done }
-
 /-- one atomic step; `none` when the step is not enabled in `s` -/
 def step (s : St) : Step → Option St
   | .start =>
     if s.started then none
-    else some { s with started := true, running := true, pc := .test }
+    else some (runOps noRec startOps { s with started := true })
   | .front r => some (front s r)
   | .test =>
-    if s.pc = .test then
-      some (if s.running then { s with pc := .enter }
-            else if finalCollect then { s with pc := .final } else { s with pc := .done })
+    if s.pc = .test then some (if s.running then { s with pc := .enter } else { s with pc := .final })
     else none
   | .enter =>
     if s.pc = .enter then
@@ -177,10 +224,11 @@ def step (s : St) : Step → Option St
   | .final => if s.pc = .final then some (finalPhase s) else none
   | .stopCall =>
     if s.started ∧ ¬ s.stopCalled then
-      some { s with running := false, woken := notified s, stopCalled := true, atStop := s.appended }
+      some (runOps noRec stopPrefix { s with stopCalled := true, atStop := s.appended })
     else none
   | .stopJoin =>
-    if s.stopCalled ∧ ¬ s.stopReturned ∧ s.pc = .done then some { s with stopReturned := true } else none
+    if s.stopCalled ∧ ¬ s.stopReturned ∧ (Op.join ∈ stopOps → s.pc = .done) then some { s with stopReturned := true }
+    else none
 
 /-- a history: every step must be enabled -/
 def run (s : St) : List Step → Option St
@@ -220,5 +268,8 @@ def notesOf : List Item → List Nat
   | [] => []
   | .record _ :: rest => notesOf rest
   | .note n :: rest => n :: notesOf rest
+
+/-- the buffers the back-end has taken but not yet handed to the file -/
+def inflight (s : St) : List Buf := if s.pc = .swapped then s.toWrite else []
 
 end MuduoVerif.AsyncLog
